@@ -197,6 +197,17 @@ def run(facts, tier):
     from props import c07
     c07.summary_rule(facts, res, "C14-9")
     c07.fresh_key_rule(facts, res, "C14-10")      # keys are non-zero and pairwise distinct
+    c07.no_id_in_evaluator(facts, res, "C14-12")
+    # append / insert_before give the moved node its new key first and re-link second: the detach step inside the re-link
+    # (XmlItem::remove_from_parent) must unlink only (delete_by_id); HasChildren::delete would clear the key just given
+    st11 = res.rule("C14-11", instances=1)
+    rp = facts.fn("xml_info::XmlItem::remove_from_parent")
+    names = {e["name"] for e in facts.edges()[rp["id"]] if e["kind"] in ("call", "cha", "fwd")}
+    bad = sorted(n for n in names if n.endswith("HasChildren::delete") or n.endswith("::clear_order"))
+    res.oblige(1, not bad)
+    if bad:
+        res.add(Finding("C14-11", "remove_from_parent", "XmlItem::remove_from_parent calls %s: the order key that append / insert_before have just "
+                        "assigned to the moved node is cleared again, the node ends up attached with key 0" % bad, rp["file"], rp["line"], {}))
     return res
 
 
